@@ -14,7 +14,11 @@ PROP = dict(
                    "a lookup is a function of the two layers as they are now): after Set the path answers with what was set, in any letter case (C17_set_get), every ancestor answers with a "
                    "map in which the rest of the path leads to it (C17_set_seen_through_ancestor), every path below a map that was set answers from that map (C17_set_seen_below), and a holder "
                    "populated later is populated under the configuration as it is then (C17_later_population_current) - so the prefix / value / prop theorems, which hold for every "
-                   "configuration function, speak about the CURRENT configuration. The full statements are FALSE of the code (the value path FormatAny -> splice -> ParseAny is "
+                   "configuration function, speak about the CURRENT configuration. One part of that reading is FALSE of the code and recorded as finding KF-C17-9: after Set on one key of a section a lookup "
+                   "of the SECTION answers from what was handed to Set alone, so a struct / map bound by prefix afterwards has lost the section's other keys while prop / ${} on those keys "
+                   "still give the documents' values (C17_set_sibling_lost_counterexample pins it in the binder model; oracle setget-sibling-lost, replayed on the real code on every run). "
+                   "A component that edits the untyped map / list it was given performs no operation on the binder: a holder populated afterwards is populated as the documents say "
+                   "(C17_edit_is_no_set; observed on the real code by the histories of kind HM, oracle bound-aliased). The full statements are FALSE of the code (the value path FormatAny -> splice -> ParseAny is "
                    "lossy); one machine-checked counterexample per class (C17_counterexamples) is replayed on the real code on every run and listed as a "
                    "known finding. The model is tied to the real container by a differential run of thousands of value x type pairs per run.",
         level_note="Partial: the value-path theorems carry the decidable hypothesis Faithful / PlainLiteral; encoding/json is a parameter assumed to "
@@ -51,6 +55,18 @@ PROP = dict(
              "harness's own account of the configuration is sure of (document + values handed to Set, composed in order: a path no Set is near, or one that a Set at or above "
              "it gave a value; structs member by member, texts placeholder by placeholder) must hold the CURRENT value converted to its type - setget-stale (the field shows what "
              "the document said before Set) / setget-current / setget-first (eager holder); "
+             "a member of a late prefix-bound struct / map that no Set is at, above or below, beside a path that was set below the same bound ancestor, must hold the DOCUMENT's value: lost "
+             "(zero / missing) = the known defect setget-sibling-lost (KF-C17-9), any other value = setget-current; "
+             "after these, n/10 cases whose DOCUMENT IS WRITTEN DIFFERENTLY (flags y1-y6, f): the harness's own YAML emitter writes the same configuration in block style with the key under test LAST - "
+             "strings as literal block scalars `|2-` `|2` `|2+` or folded `>2` (the chomping indicator chosen from the number of line breaks at the end of the intended text) -, behind a byte order mark, "
+             "blank lines and a comment, indented as a whole by two columns, or without a final line break; one in three through a temporary file and loader.NewFileLoader (the others loader.NewRawLoader; "
+             "every case goes through configure.loadConfigure and the binder's SetConfig); three in five of these bind texts with significant white space (1-3 lines, blanks in front of / behind a line, "
+             "tabs, `: ` ` # ` ` - ` inside, 0-3 line breaks at the end, an empty first line) to string, *string, any, []string, map[string]string, map[string]any and structs of strings; the bound "
+             "string is compared with the string the harness put into the document (prefix-mismatch / prop-differs / valuepath-*); "
+             "after these, n/25 histories of kind HM: holder A binds a section / a list by prefix into map[string]any / []any fields, the TOP LEVEL of those values is edited in place (set a key, "
+             "delete a key, overwrite an element, append) - by the harness after the start, or by A's own Init (Go-declared vlMutInit) -, holder B binds the same subtrees by prefix (map, list, "
+             "[]string, struct), through a placeholder and the shorthand: a second App sharing the Configure | the same start (B populated before the edit, read after it; Go-declared observers "
+             "whose names sort in front of / behind A's) | a LazyInit holder fetched afterwards; B must hold the document's values: bound-aliased; "
              "non-trivial = everything except bool->bool; distinct = distinct scenario lines",
         trusted_base=COMMON_TB + ["yaml.v3 + viper (document -> Go value), strconv2.ParseAny/FormatAny, mapstructure weak decoding, fmt %v / strconv.FormatFloat, "
                                   "encoding/json as modelled in Ioc.Value (validated by the correspondence on every run)",
@@ -58,8 +74,11 @@ PROP = dict(
         assumptions=["configuration keys are plain (letters, digits, . _ -) and lower-case (viper lower-cases keys; C15's matter)",
                      "the numeric kind of a number stored under `any` is not compared (int 5 and float64 5 render alike); nil and empty slices/maps render alike",
                      "histories (HS): what a lookup answers BESIDE a path that was handed to Set - `db.port` read through `prefix:\"db\"` after Set(\"db.host\", x): viper answers a section from its "
-                     "override layer alone, the prefix-bound struct gets port 0 while prop:\"db.port\" still gives the document's value - follows viper's layering; the model has it, the "
-                     "oracle claims nothing there (observation kept out of the findings); paths run through maps (no list index), Set is not handed nil",
+                     "override layer alone, the prefix-bound struct gets port 0 while prop:\"db.port\" still gives the document's value - is finding KF-C17-9 (the model has the code's behaviour, the "
+                     "oracle setget-sibling-lost demands the document's value); what a lookup answers below a section that was REPLACED by a map which does not mention the path is not claimed; "
+                     "paths run through maps (no list index), Set is not handed nil",
+                     "histories (HM): only the TOP LEVEL of a bound map[string]any / []any is edited: the decoder builds a fresh top-level map / slice per field but hands nested maps and lists "
+                     "over as they are (as it does for a field of type any) - editing those in place is outside what is claimed",
                      "value-path equality is claimed for Faithful values only; its complement is exactly the eight known-finding classes "
                      "(numberlike, boollike, quoted, bracketed, bigint, empty, reexpanded, panic)",
                      "pairs whose Go behaviour is implementation defined or outside the modelled float class (negative -> uint, underscores in numeric strings, "
